@@ -293,6 +293,86 @@ where
     total
 }
 
+/// Code points that differ from `c` in exactly one of the bits 16..=20 and are scalar values:
+/// what a lookup that truncates or folds the code point (u16 keys, `cp & mask` cache slots,
+/// plane-blind tags) confuses `c` with.
+pub fn alias_chars(c: char) -> Vec<char> {
+    let x = c as u32;
+    (16..=20u32).filter_map(|b| char::from_u32(x ^ (1 << b))).filter(|a| *a != c).collect()
+}
+
+/// "Pumped" strings over an alphabet: a^k b, b a^k and a^k b a for run lengths k around every
+/// boundary a fixed-size buffer, a block-wise fast path or a narrow length type could have.
+pub fn pumped(sigma: &[char], ks: &[usize]) -> Vec<String> {
+    let mut out = Vec::new();
+    for &a in sigma {
+        for &b in sigma {
+            for &k in ks {
+                let run: String = std::iter::repeat(a).take(k).collect();
+                let mut s1 = run.clone();
+                s1.push(b);
+                out.push(s1);
+                if a != b {
+                    let mut s2 = String::new();
+                    s2.push(b);
+                    s2.push_str(&run);
+                    out.push(s2);
+                    let mut s3 = run.clone();
+                    s3.push(b);
+                    s3.push(a);
+                    out.push(s3);
+                }
+            }
+        }
+    }
+    out
+}
+
+pub const PUMP_LENGTHS: [usize; 14] = [6, 7, 8, 9, 15, 16, 17, 30, 31, 32, 33, 63, 64, 65];
+pub const PUMP_LENGTHS_LONG: [usize; 8] = [127, 128, 129, 255, 256, 257, 1023, 1025];
+
+/// Every ASCII character at every offset of an otherwise plain ASCII string whose length is
+/// around a multiple of 8 (word-at-a-time / chunked fast paths)
+pub fn ascii_blocks() -> Vec<String> {
+    let mut out = Vec::new();
+    for total in [7usize, 8, 9, 15, 16, 17, 24, 25, 32, 33] {
+        for pos in 0..total {
+            for x in 0u8..128 {
+                let mut s = String::with_capacity(total);
+                for i in 0..total {
+                    s.push(if i == pos { x as char } else { 'a' });
+                }
+                out.push(s);
+            }
+        }
+    }
+    out
+}
+
+/// Run `f` over a family of strings on the thread pool (one state per string).
+pub fn run_family<F>(strings: &[String], f: F) -> Stats
+where
+    F: Fn(&str, &mut Stats) + Sync,
+{
+    let shards: Vec<Stats> = strings
+        .par_chunks(256)
+        .map(|chunk| {
+            let mut st = Stats::default();
+            for s in chunk {
+                st.states += 1;
+                st.transitions += 1;
+                f(s, &mut st);
+            }
+            st
+        })
+        .collect();
+    let mut total = Stats::default();
+    for s in shards {
+        total.merge(s);
+    }
+    total
+}
+
 /// Every scalar value, in order, chunked for the thread pool.
 pub fn cpsweep<F>(f: F) -> Stats
 where
